@@ -231,13 +231,28 @@ def _is_call_to(n, names):
     return isinstance(n, ast.Call) and ((isinstance(n.func, ast.Attribute) and n.func.attr in names) or (isinstance(n.func, ast.Name) and n.func.id in names))
 
 
+def _is_array_product(n):
+    """a prod / det call over array data (a product of static sizes such as prod(x.shape) is harmless)"""
+    import ast
+    if not _is_call_to(n, _PROD_CALLS):
+        return False
+    if not n.args:
+        return True
+    a = n.args[0]
+    if any(isinstance(m, ast.Attribute) and m.attr in ("shape", "ndim", "size") for m in ast.walk(a)):
+        return False
+    if isinstance(a, (ast.Tuple, ast.List)) and all(isinstance(e, ast.Constant) for e in a.elts):
+        return False
+    return True
+
+
 def _logdomain_violations(fn, relpath, qual):
     """log(...) of a product / determinant over a whole dimension (directly, or through a local name assigned from one)"""
     import ast
     tainted = {}
     for n in ast.walk(fn):
         if isinstance(n, ast.Assign) and len(n.targets) == 1 and isinstance(n.targets[0], ast.Name):
-            if any(_is_call_to(m, _PROD_CALLS) for m in ast.walk(n.value)):
+            if any(_is_array_product(m) for m in ast.walk(n.value)):
                 tainted[n.targets[0].id] = n.lineno
     out, sites = [], 0
     for n in ast.walk(fn):
@@ -245,7 +260,7 @@ def _logdomain_violations(fn, relpath, qual):
             continue
         sites += 1
         arg = n.args[0]
-        hit = next((m for m in ast.walk(arg) if _is_call_to(m, _PROD_CALLS)), None)
+        hit = next((m for m in ast.walk(arg) if _is_array_product(m)), None)
         name = next((m.id for m in ast.walk(arg) if isinstance(m, ast.Name) and m.id in tainted), None)
         if hit is not None or name is not None:
             what = ast.unparse(hit)[:80] if hit is not None else f"{name} (assigned from a product at line {tainted[name]})"
